@@ -203,6 +203,29 @@ def run(res):
     for _ in range(20000 if thorough else 3000):
         d, st = rng.choice(pool)
         items.append(([(k, n, dv, rng.random() < .5) for k, n, dv, _ in d], st, False))
+    # large signatures ("any number of parameters of each kind"): many parameters, random default masks
+    for _ in range(3000 if thorough else 400):
+        npos, nargs, nkw = (rng.choice([0, 1, 3, 9, 17, 33]) for _ in range(3))
+        nkw = rng.choice([0, 2, 5, 12, 20, 21, 22, 30, 45, 70]) if rng.random() < .7 else nkw
+        n_positional = npos + nargs
+        ndef = rng.randint(0, n_positional)
+        var, kwarg = rng.random() < .5, rng.random() < .5
+        ann = rng.random() < .3
+        desc, c = [], 0
+        for i in range(npos):
+            c += 1
+            desc.append(("posonly", "p%d" % i, (1000 + c) if i >= n_positional - ndef else None, ann))
+        for i in range(nargs):
+            c += 1
+            desc.append(("arg", "a%d" % i, (1000 + c) if npos + i >= n_positional - ndef else None, ann))
+        if var:
+            desc.append(("vararg", "va", None, ann))
+        for i in range(nkw):
+            desc.append(("kwonly", "k%d" % i, (5000 + i) if rng.random() < rng.choice([.1, .5, .9]) else None, ann))
+        if kwarg:
+            desc.append(("kwarg", "kw", None, ann))
+        if desc:
+            items.append((desc, bool(nkw and not var), False))
     parts = core.pmap(_work, tw.batches(items, 200), init=tw.init_state, initargs=(bins,))
     for p in parts:
         res.merge(p)
